@@ -397,6 +397,19 @@ fn judge_generation(gi: usize, g: &Generation, cls: &mut Classifier) -> Verdict 
                     }
                 };
             }
+            // getentropy(3) documents EINTR ("interrupted by a signal"): retrying such a request until the
+            // source delivers is not "ignoring a failure" - accepted if the phrase is exactly the bytes of the
+            // request that finally succeeded (counted as unspecified); any other errno must surface as an error
+            let only_eintr = log.iter().filter(|c| c.delivered.is_none()).all(|c| c.errno == Some(libc::EINTR));
+            let last_ok = log.last().and_then(|c| c.delivered.clone());
+            if only_eintr && log.iter().any(|c| c.delivered.is_none()) {
+                if let Some(d) = last_ok.filter(|d| d.len() == n && log.iter().filter(|c| c.delivered.is_some()).count() == 1) {
+                    if phrase == bip39::encode_phrase(&d) && log.iter().all(|c| c.requested == n) {
+                        cls.unspecified("retried-after-EINTR-and-used-the-delivered-bytes");
+                        return Ok(());
+                    }
+                }
+            }
             if let Some(bad) = log.iter().find(|c| c.delivered.is_none()) {
                 return fail(
                     "Err (a request failed)",
@@ -1213,7 +1226,7 @@ pub fn run(ctx: &mut Ctx) {
     ctx.rule = "Fault injection at getentropy. In-process (symbol exported by the harness binary, per-call script and log): Mnemonic::random for every length 0..=40 and large values x source scripts {uniform, all-0, all-1, counter, single bit set/clear, period-2, short cycle, one bit different from the previous delivery; failure with EIO/EINTR/ENOSYS/...}, single and consecutive generations (each case preceded by one unjudged priming generation per length, so that state carried between generations shows within the case). Executable (LD_PRELOAD shim, PRF stream of (GE_SEED, request index), request log, GE_FAIL_FROM): `new -n L` for every L in 0..=40 x shim seeds, failure at request 0, other spellings of the option, the real source observed through the shim; vanity searches `--vanity-prefix 0x<digit>` with -j 0 and -j 1 and failure from request k for every k in 0..=24, unfailed searches with -j 0/1/2/3/16, failures in concurrent searches, one transient failure (GE_FAIL_AT) during a concurrent 3-digit search (error required unless the match preceded the failure; a phrase from a block requested more than 400 requests after the failure is a violation); repeated invocations on the real source with and without the shim. Oracle: supported L -> Ok / exit 0, the bytes requested are exactly 4L/3 and the phrase is the reference BIP-39 encoding (own word list, bit-string checksum) of exactly the delivered bytes, mnemonic_length = L, the phrase parses back (Mnemonic::from_phrase / `address --mnemonic`); unsupported L -> Err / error exit with empty stdout; injected failure -> Err / error exit with empty stdout, no panic; sequential vanity search with failure from k -> the reference (PBKDF2 -> BIP-32 m/44'/60'/0'/0/0 -> secp256k1 -> Keccak address, all independent) determines the first of the k delivered blocks whose address has the prefix: exactly that phrase is printed, or an error if none; concurrent search -> printed phrase encodes one delivered block; real source -> valid, pairwise distinct, equal to the logged bytes. Non-trivial: every case except all-zero entropy with L = 12; distinct by (L, delivered bytes | failure point | shim seed).".into();
     ctx.assumptions = vec![
         "hdwallet obtains entropy only through libc getentropy (symbol interposition sees every request; Rust std does not call getentropy on Linux)".into(),
-        "every -1 return of getentropy counts as the source reporting failure (EINTR included): a generation that still returns a phrase after a failed request is reported".into(),
+        "every -1 return of getentropy counts as the source reporting failure; the one exception is EINTR, where retrying until the source delivers is accepted provided the phrase is exactly the finally delivered bytes (a retry that gives up and uses other bytes is reported)".into(),
         "sha2, hmac (reference PBKDF2) and sha3 (reference Keccak) are correct; the reference secp256k1/BIP-32 modules are validated by the self-test".into(),
         "real-entropy sub-check: two independent draws of >= 128 bits from the kernel never coincide".into(),
     ];
